@@ -21,10 +21,11 @@ C10_Result  == IsKv /\ Modelled /\ Ev.panic = "" => R.res = Ev.res /\ (Ev.o.op =
 Mine == {k \in DOMAIN G.m : k[1] = G.h.pfx /\ k[2] = (IF Sessioned(G.h.pfx) THEN G.h.sid ELSE "") /\ k[4] = ""}
 Listed == {<<Ev.list[i].k, Ev.list[i].v>> : i \in DOMAIN Ev.list}
 \* (listings of the translatable types mix default and translated entries under one decoded key: not specified by C10)
-C10_DumpOnce == IsKv /\ Ev.o.op = "dump" /\ Ev.res = "ok" /\ ~Translatable(G.h.pfx) => Cardinality(Listed) = Len(Ev.list) /\ Cardinality({Ev.list[i].k : i \in DOMAIN Ev.list}) = Len(Ev.list)
+FsDump == IsKv /\ Ev.o.op = "dump" /\ Ev.backend \in {"fs", "fsbin"}
+C10_DumpOnce == FsDump /\ Ev.res = "ok" /\ ~Translatable(G.h.pfx) => Cardinality(Listed) = Len(Ev.list) /\ Cardinality({Ev.list[i].k : i \in DOMAIN Ev.list}) = Len(Ev.list)
 \* (with no session selected the sessioned types have no namespace of their own: judged by C11, not here)
 NoNs == Sessioned(G.h.pfx) /\ G.h.sid = ""
-C10_DumpSound == IsKv /\ Ev.o.op = "dump" /\ Ev.res = "ok" /\ ~Translatable(G.h.pfx) /\ ~NoNs => \A p \in Listed : \E k \in Mine : k[3] = p[1] /\ G.m[k] = p[2]
+C10_DumpSound == FsDump /\ Ev.res = "ok" /\ ~Translatable(G.h.pfx) /\ ~NoNs => \A p \in Listed : \E k \in Mine : k[3] = p[1] /\ G.m[k] = p[2]
 C10_DumpComplete == IsKv /\ Ev.o.op = "dump" /\ Ev.o.k = "" /\ Ev.backend \in {"fs", "fsbin"} /\ ~Translatable(G.h.pfx) /\ G.h.pfx # 0 /\ ~NoNs =>
                       (IF Mine = {} THEN Ev.res = "notfound" ELSE Ev.res = "ok" /\ \A k \in Mine : <<k[3], G.m[k]>> \in Listed)
 
@@ -35,4 +36,13 @@ C11_NoCrossList == IsKv /\ Ev.o.op = "dump" /\ Ev.res = "ok" =>
                       \A i \in DOMAIN Ev.list : Ev.list[i].pk => (Ev.list[i].pt = G.h.pfx /\ (Sessioned(G.h.pfx) => Ev.list[i].ps = G.h.sid))
 \* a value written under one session / type is not destroyed from another: reading my own key returns my own latest write
 C11_NoCrossOverwrite == IsKv /\ Ev.o.op = "get" /\ Ev.panic = "" /\ R.res = "ok" => Ev.res = "ok" /\ (Ev.known => (Ev.pt = G.h.pfx /\ (Sessioned(G.h.pfx) => Ev.ps = G.h.sid)))
+
+(* "kvc" lines: sessions working at the same time on one filesystem data directory, each through its own handle.       *)
+(* Every line is judged on its own: a session reads what that session wrote last under that key and data type - never   *)
+(* another session's or data type's value, a torn value, or nothing.  (want "?": the session's last write was refused.) *)
+IsKvc == Have /\ Ev.ev = "kvc"
+C11_ConcOwnData == IsKvc /\ Ev.op = "get" /\ Ev.want # "?" =>
+                      IF Ev.want = "" THEN Ev.res = "notfound"
+                      ELSE Ev.res = "ok" /\ Ev.got = Ev.want /\ Ev.gotok
+C11_ConcWriteAccepted == IsKvc /\ Ev.op = "put" => Ev.res = "ok"
 =============================================================================
